@@ -418,8 +418,9 @@ class Installer:
         # copyfile fails if the target file already exists, so remove it to
         # allow overwriting a previous install. If the target is not a file, we
         # want to give a readable error.
-        if os.path.exists(to_file):
-            if not os.path.isfile(to_file):
+        if os.path.lexists(to_file):
+            # A dangling symlink installed earlier exists without being a file
+            if not os.path.isfile(to_file) and not os.path.islink(to_file):
                 raise MesonException(f'Destination {to_file!r} already exists and is not a file')
             if self.should_preserve_existing_file(from_file, to_file):
                 append_to_log(self.lf, f'# Preserving old file {to_file}\n')
